@@ -205,12 +205,22 @@ func harnessNamesIn(pkgRel string) []string {
 
 // nativeBinary builds (once per package per run) the replay test binary.
 func nativeBinary(pkgRel, pkgName string) (string, error) {
+	return nativeBinaryMode(pkgRel, pkgName, false)
+}
+
+// nativeBinaryMode: race=true builds the same binary with Go's race detector (-race).
+func nativeBinaryMode(pkgRelIn, pkgName string, race bool) (string, error) {
 	nativeMu.Lock()
 	defer nativeMu.Unlock()
-	if b, ok := nativeBins[pkgRel]; ok {
+	pkgRel := pkgRelIn
+	key := pkgRel
+	if race {
+		key += "#race"
+	}
+	if b, ok := nativeBins[key]; ok {
 		return b, nil
 	}
-	if e, ok := nativeBinErr[pkgRel]; ok {
+	if e, ok := nativeBinErr[key]; ok {
 		return "", fmt.Errorf("%s", e)
 	}
 	dir, err := os.MkdirTemp("/var/tmp", "verif-replay-")
@@ -226,19 +236,23 @@ func nativeBinary(pkgRel, pkgName string) (string, error) {
 	extra := map[string][]byte{testFile: []byte(fmt.Sprintf(replayTestTmpl, pkgName, tab.String(), 6))}
 	ovPath, err := writeNativeOverlay(dir, extra)
 	if err != nil {
-		nativeBinErr[pkgRel] = err.Error()
+		nativeBinErr[key] = err.Error()
 		return "", err
 	}
 	bin := filepath.Join(dir, "replay.test")
-	build := exec.Command("go", "test", "-c", "-vet=off", "-overlay", ovPath, "-o", bin, "./"+pkgRel)
+	args := []string{"test", "-c", "-vet=off", "-overlay", ovPath, "-o", bin}
+	if race {
+		args = append(args, "-race")
+	}
+	build := exec.Command("go", append(args, "./"+pkgRel)...)
 	build.Dir = repoDir
 	build.Env = append(os.Environ(), "GOFLAGS=-mod=readonly", "GOPROXY=off")
 	if bo, err := build.CombinedOutput(); err != nil {
 		msg := fmt.Sprintf("native build failed: %v: %s", err, string(bo))
-		nativeBinErr[pkgRel] = msg
+		nativeBinErr[key] = msg
 		return "", fmt.Errorf("%s", msg)
 	}
-	nativeBins[pkgRel] = bin
+	nativeBins[key] = bin
 	return bin, nil
 }
 
@@ -322,6 +336,71 @@ func matchOutcome(kind, msg, outcome string) bool {
 		return strings.HasPrefix(outcome, "panic:") || strings.HasPrefix(outcome, "fatal error:")
 	}
 	return false
+}
+
+var raceLocRe = regexp.MustCompile(`\(([^()\s]+\.go:\d+)\)`)
+
+// replayNativeRace confirms a data race reported by the engine with Go's own race detector:
+// the harness is compiled with -race, run with the counterexample inputs (a few times; the
+// detector is happens-before based, so it flags the pair whenever both accesses execute), and
+// a "WARNING: DATA RACE" report must name both source locations of the engine's report.
+func replayNativeRace(h *harness, path string) (bool, string) {
+	if os.Getenv("VERIF_NO_NATIVE") != "" {
+		return false, "native replay disabled"
+	}
+	b, err := os.ReadFile(path)
+	if err != nil {
+		return false, err.Error()
+	}
+	var v violationFile
+	if err := json.Unmarshal(b, &v); err != nil {
+		return false, err.Error()
+	}
+	var locs []string
+	for _, m := range raceLocRe.FindAllStringSubmatch(v.Msg, -1) {
+		loc := m[1]
+		// compare by "<file base dir>/<file>:line" suffix: the native build sees /repo paths
+		if i := strings.LastIndex(loc, "/"); i >= 0 {
+			if j := strings.LastIndex(loc[:i], "/"); j >= 0 {
+				loc = loc[j+1:]
+			}
+		}
+		locs = append(locs, loc)
+	}
+	if len(locs) < 2 {
+		return false, "race report without two source locations"
+	}
+	rel, name := harnessPkg(h)
+	bin, err := nativeBinaryMode(rel, name, true)
+	if err != nil {
+		return false, err.Error()
+	}
+	for attempt := 0; attempt < 8; attempt++ {
+		cmd := exec.Command(bin, "-test.run", "^TestVerifReplay$", "-test.timeout", "60s", "-test.v")
+		cmd.Dir = filepath.Join(repoDir, rel)
+		if _, err := os.Stat(cmd.Dir); err != nil {
+			cmd.Dir = repoDir
+		}
+		cmd.Env = append(os.Environ(), "VERIF_REPLAY="+path, "VERIF_HARNESS="+h.name, "GORACE=halt_on_error=0 history_size=3")
+		var out bytes.Buffer
+		cmd.Stdout, cmd.Stderr = &out, &out
+		done := make(chan error, 1)
+		go func() { done <- cmd.Run() }()
+		select {
+		case <-done:
+		case <-time.After(90 * time.Second):
+			cmd.Process.Kill()
+		}
+		for _, blk := range strings.Split(out.String(), "WARNING: DATA RACE")[1:] {
+			if i := strings.Index(blk, "=================="); i >= 0 {
+				blk = blk[:i]
+			}
+			if strings.Contains(blk, locs[0]) && strings.Contains(blk, locs[1]) {
+				return true, fmt.Sprintf("native: Go race detector (-race build of the harness, attempt %d) reports DATA RACE between %s and %s", attempt+1, locs[0], locs[1])
+			}
+		}
+	}
+	return false, "Go race detector did not report the pair in 8 native runs"
 }
 
 // replayNative replays a recorded counterexample against the compiled code.
